@@ -213,7 +213,7 @@ func (x *Exec) evalExpr(env *Env, e *Expr) Value {
 		if e.Args[1] != nil {
 			hi = x.term(x.typed(x.evalExpr(env, e.Args[1]), u64T))
 		}
-		return SliceV{Base: s.Base, Off: bvadd(s.Off, lo), Len: bvsub(hi, lo), Cap: bvsub(s.Cap, lo), Elem: s.Elem, Region: s.Region, New: s.New}
+		return SliceV{Base: s.Base, Off: bvadd(s.Off, lo), Len: bvsub(hi, lo), Cap: bvsub(s.Cap, lo), Elem: s.Elem, Region: s.Region, New: s.New, Owner: s.Owner}
 	}
 	x.fail("cannot evaluate %s (%s)", e, e.Kind)
 	return nil
@@ -399,7 +399,7 @@ func (x *Exec) evalLValue(env *Env, e *Expr) Ptr {
 		b := x.evalExpr(env, e.X)
 		if s, ok := b.(SliceV); ok {
 			i := x.term(x.typed(x.evalExpr(env, e.Y), u64T))
-			return Ptr{Base: s.Base, Root: x.regionOf(s).root(), Path: []Step{{Idx: elemAt(s.Off, i)}}}
+			return Ptr{Base: x.regionOf(s).eb(), Root: x.regionOf(s).root(), Path: []Step{{Idx: elemAt(s.Off, i)}}}
 		}
 	case "ident":
 		if v, ok := env.lookupVar(e.Name); ok {
@@ -437,7 +437,7 @@ func (x *Exec) evalIndex(env *Env, e *Expr) Value {
 	switch b := base.(type) {
 	case SliceV:
 		i := x.term(x.typed(x.evalExpr(env, e.Y), u64T))
-		return x.load(env.st, Ptr{Base: b.Base, Root: x.regionOf(b).root(), Path: []Step{{Idx: elemAt(b.Off, i)}}})
+		return x.load(env.st, Ptr{Base: x.regionOf(b).eb(), Root: x.regionOf(b).root(), Path: []Step{{Idx: elemAt(b.Off, i)}}})
 	case GhostArr:
 		k := x.evalExpr(env, e.Y)
 		if b.Typ.Key.Key == nil {
@@ -655,7 +655,7 @@ func (x *Exec) evalCall(env *Env, e *Expr) Value {
 			}
 			l := x.leaf(leaves[0][0], 1, leaves[0][1])
 			gt := &GhostType{Key: &GhostType{Base: u64T}, Val: &GhostType{Base: s.Elem}}
-			return GhostArr{T: "(select " + x.heapGet(env.st, l) + " " + s.Base + ")", Sort: gt.Sort(), Typ: gt}
+			return GhostArr{T: "(select " + x.heapGet(env.st, l) + " " + x.regionOf(s).eb() + ")", Sort: gt.Sort(), Typ: gt}
 		case "off":
 			s := x.evalExpr(env, e.Args[0]).(SliceV)
 			return Scalar{T: s.Off, Typ: u64T}
